@@ -55,19 +55,28 @@ class CellObj:
 
 
 class Cols:
-    def __init__(self, line, sep):
-        self.line, self.sep = line, sep
+    def __init__(self, line, sep, limit=None):
+        self.line, self.sep, self.limit = line, sep, limit
+
+    def n(self):
+        full = ncols(self.sep)(self.line.t)
+        return full if self.limit is None else z3.If(full < self.limit, full, z3.IntVal(self.limit))
 
     def length(self):
-        return Rv(ncols(self.sep)(self.line.t))
+        return Rv(self.n())
 
     def item(self, k):
         kz = H._z(k)
-        if not ctx().decide(z3.And(kz >= 0, kz < ncols(self.sep)(self.line.t)), "column exists"):
+        if not ctx().decide(z3.And(kz >= 0, kz < self.n()), "column exists"):
             raise H.SymIndexError("list index out of range")
         return CellObj(col(self.sep)(self.line.t, kz))
 
-    __getitem__ = item
+    def __getitem__(self, k):
+        if isinstance(k, slice):
+            if k.start in (None, 0) and k.step is None and isinstance(k.stop, int) and k.stop >= 0 and self.limit is None:
+                return Cols(self.line, self.sep, limit=k.stop)          # the first cells
+            raise H.Unsupported("this slice of the cells of a line")
+        return self.item(k)
 
     def __iter__(self):
         raise H.Unsupported("iteration over the cells of a line outside map()")
@@ -87,11 +96,23 @@ class Values(H.IndexedSeq):
 
     def item(self, k):
         kz = H._z(k)
-        if not ctx().decide(z3.And(kz >= 0, kz < ncols(self.cols.sep)(self.cols.line.t)), "value exists"):
+        if not ctx().decide(z3.And(kz >= 0, kz < self.cols.n()), "value exists"):
             raise H.SymIndexError("list index out of range")
         return Rv(numf(col(self.cols.sep)(self.cols.line.t, kz)))
 
     __getitem__ = item
+
+    def all_truthy(self):
+        """all(values): every number is non-zero (only for a known number of values)"""
+        if self.cols.limit is None:
+            raise H.Unsupported("all() over a row of unknown length")
+        c = ctx()
+        for k in range(self.cols.limit):
+            if not c.decide(self.cols.n() > k, f"the row has more than {k} values"):
+                return True
+            if not c.decide(numf(col(self.cols.sep)(self.cols.line.t, z3.IntVal(k))) != 0, f"value {k} is not zero"):
+                return False
+        return True
 
 
 class MappedCols:
@@ -102,7 +123,7 @@ class MappedCols:
 
     def __iter__(self):
         k = 0
-        n = ncols(self.cols.sep)(self.cols.line.t)
+        n = self.cols.n()
         while True:
             if k > 16:
                 raise H.Unsupported("a line unpacked into more than 16 values")
@@ -200,6 +221,11 @@ def namespace(space, calls: List[Any], st: Dict[str, Any]) -> Dict[str, Any]:
                 return H.SymSeq("lines", st["L"], 0, st["N"], LineObj)
             return base_list(x)
 
+    def s_all(x):
+        if isinstance(x, Values):
+            return x.all_truthy()
+        return builtins.all(x)
+
     def s_tuple(x=()):
         if isinstance(x, MappedCols):
             return x
@@ -228,7 +254,7 @@ def namespace(space, calls: List[Any], st: Dict[str, Any]) -> Dict[str, Any]:
 
     class UnsupportedFileFormat(Exception):
         pass
-    ns.update({"map": s_map, "filter": s_filter, "list": s_list, "tuple": s_tuple, "int": s_int, "open": lambda *a, **k: _FakeFile(), "_parse_string_as_float": parse_float,
+    ns.update({"all": s_all, "map": s_map, "filter": s_filter, "list": s_list, "tuple": s_tuple, "int": s_int, "open": lambda *a, **k: _FakeFile(), "_parse_string_as_float": parse_float,
                "_validate_path": lambda p: None, "DataFrame": DataFrame, "dataframe_to_data_sets": d2ds, "UnsupportedFileFormat": UnsupportedFileFormat, "str": str})
     return ns
 
@@ -315,7 +341,7 @@ def target_line_parsers():
             st["h"] = h
             c.assume(0 <= h, h + 1 < N, sw("freq/hz")(line(L, h)),
                      z3.ForAll([k], z3.Implies(z3.And(0 <= k, k < h), z3.Not(sw("freq/hz")(line(L, k)))), patterns=[sw("freq/hz")(line(L, k))]),
-                     z3.ForAll([k], z3.Implies(z3.And(h < k, k < N), ncols(tab)(line(L, k)) >= 3), patterns=[ncols(tab)(line(L, k))]))
+                     z3.ForAll([k], z3.Implies(z3.And(h < k, k < N), z3.And(ncols(tab)(line(L, k)) >= 3, numeric_row(line(L, k)))), patterns=[ncols(tab)(line(L, k))]))
             ok, out = no_raise("parse_mpt (well-formed file: a 'freq/Hz' header line, then rows of at least three tab-separated cells)", lambda: real_mpt("file.mpt"))
             if not ok:
                 return
